@@ -193,16 +193,20 @@ def gen_cases(tier, seed, with_chi2=True):
     return cases
 
 
-def evaluate(cases, K, name, run, timeout=3000, spec='MC_EdgeCases', invariants=('InputsUnit', 'Chi2NonNeg'), max_retry=6):
-    """Run TLC on `spec` over `cases`; return list of (case, obs).  A case on which TLC's 32-bit integers overflow is
-    dropped (counted as skipped) and the run repeated: overflow is a limit of the machinery, never a verdict."""
+def evaluate(cases, K, name, run, timeout=3000, spec='MC_EdgeCases', invariants=('InputsUnit', 'Chi2NonNeg'), max_retry=60):
+    """Run TLC on `spec` over `cases`; return list of (case, obs).  A case on which TLC's 32-bit integers overflow is dropped together
+    with its denominator class (counted as skipped) and the REMAINING cases are evaluated in a new run (cases already evaluated are kept):
+    overflow is a limit of the machinery, never a verdict."""
     import re
     import shutil
-    cases = list(cases)
+    todo = list(enumerate(cases))          # (original index, case)
+    done = {}
     for attempt in range(max_retry + 1):
+        if not todo:
+            break
         d = tlc.scratch()
         with open(os.path.join(d, 'cases.ndjson'), 'w') as f:
-            for c in cases:
+            for _, c in todo:
                 f.write(json.dumps(c) + '\n')
         if K is None:
             mc = '---- MODULE %s ----\nEXTENDS %s\n====\n' % (name, spec)
@@ -211,31 +215,46 @@ def evaluate(cases, K, name, run, timeout=3000, spec='MC_EdgeCases', invariants=
             mc = '---- MODULE %s ----\nEXTENDS %s\nKK == %d\n====\n' % (name, spec, K)
             cfg = 'SPECIFICATION Spec\nCONSTANTS\n  K <- KK\n' + ''.join('INVARIANT %s\n' % iv for iv in invariants)
         try:
+            overflow_at = None
             try:
                 res = tlc.run(name, cfg, mc_text=mc, dump=True, keep_dir=d, timeout=timeout)
             except tlc.TLCError as e:
                 m = re.search(r'/\\ i = (\d+)', str(e)) if 'Overflow' in str(e) else None
-                if m and attempt < max_retry:
-                    bad = cases[int(m.group(1)) - 1]
-                    sig = headroom_class(bad)
-                    n0 = len(cases)
-                    cases = [c for c in cases if headroom_class(c) != sig]
-                    run.skip('cases dropped: TLC 32-bit overflow while evaluating the exact model (whole denominator class)', n0 - len(cases))
-                    run.notes.setdefault('overflow_classes', []).append(repr(sig))
-                    continue
-                raise
-            if res.violation:
+                if not m or attempt >= max_retry:
+                    raise
+                overflow_at = int(m.group(1))
+                res = None
+            if res is not None and res.violation:
                 raise tlc.TLCError('model invariant %s violated in %s:\n%s' % (res.violation, name, res.out[-2000:]))
-            run.add_tlc(res, name)
-            out = {}
-            for st in tlaval.iter_dump(res.dump):
-                if st['phase'] == 1:
-                    out[st['i']] = st['obs']
-            if len(out) != len(cases):
-                raise tlc.TLCError('expected %d evaluated cases, got %d' % (len(cases), len(out)))
-            return [(cases[j - 1], out[j]) for j in sorted(out)]
+            dump = os.path.join(d, 'states.dump')
+            got = {}
+            if os.path.exists(dump):
+                try:
+                    for st in tlaval.iter_dump(dump):
+                        if st.get('phase') == 1:
+                            got[st['i']] = st['obs']
+                except Exception:  # noqa  (a dump cut off by the kill: keep what parsed)
+                    pass
+            for k, obs in got.items():
+                done[todo[k - 1][0]] = obs
+            if res is not None:
+                run.add_tlc(res, name)
+                if len(got) != len(todo):
+                    raise tlc.TLCError('expected %d evaluated cases, got %d' % (len(todo), len(got)))
+                todo = []
+            else:
+                bad = todo[overflow_at - 1][1]
+                sig = headroom_class(bad)
+                n0 = len(todo)
+                todo = [(k, c) for pos, (k, c) in enumerate(todo, start=1) if pos not in got and headroom_class(c) != sig]
+                dropped = n0 - len(todo) - len(got)
+                run.skip('cases dropped: TLC 32-bit overflow while evaluating the exact model (whole denominator class)', max(dropped, 1))
+                run.notes.setdefault('overflow_classes', []).append(repr(sig)[:200])
+                run.states += len(got)
+                run.transitions += len(got)
         finally:
             shutil.rmtree(d, ignore_errors=True)
+    return [(cases[k], done[k]) for k in sorted(done)]
 
 
 def build_edge(c):
